@@ -148,7 +148,10 @@ def gen_statement(rng, features):
     if 'dml' in features and k < 0.2:
         name, t = tref(rng)
         n2, _ = tref(rng)
-        return f'delete from {name} where a in (select a from {n2}) and b = 1', {'kind': 'delete'}
+        col = rng.choice(['a', 'a', f'{t}.a', f'{name}.a', f'{name.upper()}.a'])       # bare, table-qualified, fully qualified
+        col2 = rng.choice(['b', f'{name}.b'])
+        return rng.choice([f'delete from {name} where {col} in (select a from {n2}) and {col2} = 1',
+                           f'delete from {name} where {col} = 1', f'delete from {name} where {col2} > 0 and {col} between 1 and 2']), {'kind': 'delete'}
     if 'union' in features and k < 0.3:
         s1, m1 = gen_select(rng, features - {'order', 'limit'})
         s2, m2 = gen_select(rng, features - {'order', 'limit'})
@@ -207,6 +210,7 @@ EDGE_STATEMENTS = [
     "insert into int2.t2 (a, b) select a, b from int1.t1 join proj.pred as m where m.a = 1",
     "update int1.t1 set a = 1 from (select * from int2.t2) as s where s.a = t1.a",
     "delete from int1.t1 where a in (select a from int2.t2 where b = 1)",
+    "delete from int1.t1 where int1.t1.a = 1", "delete from int1.t1 where t1.a = 1 and int1.t1.b in (select b from int2.t2)",
     "create table int2.copy1 as select * from int1.t1 join int3.t3 on t1.a = t3.a",
     # an outer select that runs over a fetched frame and has sub-selects of its own
     "select * from (select * from int1.t1) as x where x.a in (select b from int2.t2)",
